@@ -56,6 +56,7 @@ pub struct NestedRun {
     pub k: usize,
     pub broke_at: Option<usize>,
     pub key: Option<Bits>,
+    pub panic_at: Option<usize>,
 }
 
 /// The hook handed to the site bodies: visits plus the nested-macro protocol.
@@ -94,6 +95,7 @@ impl<'a> QState<'a> {
         if self.failed || rt::has_violation() {
             return None;
         }
+        let panic_in_nested = (kind / 3) % 2 == 1;
         let kind = kind % 3;
         let live = self.m.live_of(oi);
         let start_live: BTreeSet<Bits> = live.iter().copied().collect();
@@ -105,7 +107,9 @@ impl<'a> QState<'a> {
         } else {
             None
         };
-        self.nested = Some(NestedRun { kind, oi, n, mask, start_live, seen: BTreeSet::new(), pending: None, k: 0, broke_at: None, key });
+        // F1 inside the nested macro: the panic unwinds through two in-flight queries
+        let panic_at = if panic_in_nested { Some((n as usize / 11) % (live.len() + 1)) } else { None };
+        self.nested = Some(NestedRun { kind, oi, n, mask, start_live, seen: BTreeSet::new(), pending: None, k: 0, broke_at: None, key, panic_at });
         self.stats.inc(match kind {
             0 => "inner_nested_ecs_iter",
             1 => "inner_nested_ecs_iter_destroy",
@@ -158,6 +162,13 @@ impl<'a> QState<'a> {
         }
         let am = &self.m.archs[run.oi];
         self.nested_visits.push(VisitRec { ent, arch: run.oi, dir, removals: am.removals, creations: am.creations, ver: am.ver });
+        if run.panic_at == Some(k) {
+            // the destroy decided by this visit never happens; those of completed visits stand
+            self.nested = None;
+            self.stats.inc("F1_closure_panic_in_nested_macro");
+            rt::with(|r| r.fired = Some(Injected::Closure));
+            std::panic::panic_any(Injected::Closure);
+        }
         let n0 = run.start_live.len();
         let step = match run.kind {
             0 => {
